@@ -64,7 +64,10 @@ func (g *fnGen) script(only *Obligation, withModel bool) string {
 		if !ob.Cover {
 			fmt.Fprintf(&b, "(assert (not %s))\n", ob.Goal)
 		}
-		if ob.Cover && only == nil {
+		if only == nil && !ob.Cover && g.wantRetry != nil && !g.wantRetry(ob.Name) {
+			// unclaimed obligation: informational only, keep it cheap
+			fmt.Fprintf(&b, "(set-option :timeout 400)\n(echo \"@@ %d\")\n(check-sat)\n(set-option :timeout %d)\n", ob.seq, g.timeoutMs)
+		} else if ob.Cover && only == nil {
 			fmt.Fprintf(&b, "(set-option :timeout 400)\n(echo \"@@ %d\")\n(check-sat)\n(set-option :timeout %d)\n", ob.seq, g.timeoutMs)
 		} else {
 			fmt.Fprintf(&b, "(echo \"@@ %d\")\n(check-sat)\n", ob.seq)
@@ -127,6 +130,7 @@ func (g *fnGen) solve(opt solveOpts) error {
 		return nil
 	}
 	g.timeoutMs = opt.timeoutMs
+	g.wantRetry = opt.wantRetry
 	base := filepath.Join(opt.dir, sanitizeFile(g.key))
 	file := base + ".smt2"
 	if err := os.WriteFile(file, []byte(g.script(nil, false)), 0o644); err != nil {
